@@ -710,7 +710,9 @@ CrossPaths == << <<>>, S("/"), S("/a"), S("/a/"), S("/a/b"), S("/A"), S("/."), S
 CrossQF == << <<>>, S("?"), S("?a"), S("?a#f"), S("#f"), S("? ") \o <<EAC>> \o S("%eF#?") >>
 
 EncCat == << "utf-8", "latin-1", "ascii", "cp1252", "iso8859-15", "koi8-r", "cp437", "shift_jis", "euc_jp", "gbk",
-             "big5", "utf-16", "utf-16-le", "utf-32", "cp500", "cp037", "utf-16-be", "utf-7", "hz" >>   \* incl. EBCDIC: not ASCII compatible either
+             "big5", "utf-16", "utf-16-le", "utf-32", "cp500", "cp037", "utf-16-be", "utf-7", "hz",
+             \* labels that are no text codec at all (unknown names, WHATWG labels Python lacks, byte-to-byte codecs)
+             "x-user-defined", "iso-8859-8-i", "utf-88", "hex", "rot13", "base64", "zlib" >>   \* incl. EBCDIC: not ASCII compatible either
 
 \* ---- a structured input and the text it stands for
 Base(sc, ui, ho, po, pa, qf, enc) ==
